@@ -1,7 +1,7 @@
 """C01 Page set fidelity: no page lost, invented, duplicated or altered."""
 from .. import alpha as al
 from .. import lru as L
-from ..alpha import A, Ax, Axy, Ab, Az, Aw, Sx, Bb
+from ..alpha import A, Ax, Axy, Ab, Az, Aw, Awx, Sx, Bb
 from ..engine_h import HCheck, Space
 from ..hcommon import run_hcheck, replay_hcheck
 from ..world import Cfg
@@ -17,7 +17,7 @@ ASSUMPTIONS = [
 
 class Check(HCheck):
     pid = ID
-    owned = ("page", "pages", "links", "crawl", "as_str", "as_iter", "crawl_alias")
+    owned = ("page", "pages", "links", "crawl", "as_str", "as_iter", "crawl_alias", "clear", "reopen")
     must_count = ("pages_compared_nonempty", "report_new_pages_positive")
 
     def spaces(self, tier):
@@ -83,6 +83,10 @@ class Check(HCheck):
             l2 = [A + L.long_stem(n, f) for n, f in ((75, b"\xff"), (75, b"\x00"), (149, b"{"), (149, b"}"), (76, b"\x80"))]
             l2 += [l2[0] + L.long_stem(150, b"a")]
             sp.append(Space(Cfg("never"), [al.page(u, i % 2 == 1) for i, u in enumerate(l2)], 6, name="order/long-bytes"))
+        # the page set across clear() and close/reopen on ONE object: two corpora (one with a
+        # multi-block stem) so that other blocks are handed out after the clear; every sequence
+        life = [al.pages((Ax, Ab), True), al.page(A + L.long_stem(149), False), al.crawl((Bb, (Az, Axy)), (Az, (Bb,))), al.page(Sx), al.links((Ab, Awx)), al.clear("never", {}), al.REOPEN]
+        sp.append(Space(Cfg("never"), life, 6 if thorough else 5, name="lifecycle/pages", dedup=False))
         return sp
 
     def check_trans(self, w, tr, ctx):
